@@ -751,7 +751,6 @@ struct Oracle {
 
 struct Failure { kind: &'static str, msg: String }
 fn fail<T>(kind: &'static str, msg: String) -> Result<T, Failure> { Err(Failure { kind, msg }) }
-const KNOWN_EMPTY: &str = "empty-range-on-empty-store";
 
 impl Oracle {
     fn new(i: &Init) -> Oracle {
@@ -888,9 +887,9 @@ fn check_query(s: &MemStorage, o: &mut Oracle, q: &Op) -> Result<bool, Failure> 
             let r = match r {
                 Ok(r) => r,
                 Err(m) => {
-                    if lo == hi && o.ents.is_empty() && *lo >= o.first && !(o.trig_log && *can_async) {
-                        return fail(KNOWN_EMPTY, format!("entries({}, {}) panics on a store holding no entries (first {}, last {}) instead of returning Ok([]): {}",
-                                                         lo, hi, o.first, o.last(), m));
+                    if lo == hi && *lo >= o.first {
+                        return fail("entries-empty-range", format!("entries({}, {}) panics (first {}, last {}, {} entries held) instead of returning Ok([]): {}",
+                                                                   lo, hi, o.first, o.last(), o.ents.len(), m));
                     }
                     return fail("unexpected-panic", format!("entries({}, {}, {:?}): {}", lo, hi, mx, m));
                 }
@@ -962,8 +961,7 @@ fn check_query(s: &MemStorage, o: &mut Oracle, q: &Op) -> Result<bool, Failure> 
     Ok(true)
 }
 
-/// Query battery after a mutation.  It never issues the empty-range read on a
-/// store that holds no entries (known finding; only reported when the case itself contains it).
+/// Query battery after a mutation (includes the empty range on a store that holds no entries).
 fn battery(s: &MemStorage, o: &mut Oracle) -> Result<(), Failure> {
     for q in [Op::QFirst, Op::QLast, Op::QHard, Op::QInit] { check_query(s, o, &q)?; }
     let (first, last) = (o.first, o.last());
@@ -971,7 +969,7 @@ fn battery(s: &MemStorage, o: &mut Oracle) -> Result<(), Failure> {
     check_query(s, o, &Op::QTerm(o.si))?;
     check_query(s, o, &Op::QEntries(first - 1, first - 1, None, false))?;
     check_query(s, o, &Op::QEntries(first - 1, last + 1, Some(0), false))?;
-    if !o.ents.is_empty() {
+    {
         let mut w: Vec<u64> = (first..=(first + 3).min(last + 1)).chain((last.saturating_sub(2)).max(first)..=last + 1).collect();
         w.sort(); w.dedup();
         for &lo in &w { for &hi in &w {
@@ -1109,39 +1107,23 @@ fn monitor(args: &[String]) {
     let files = arg(args, "--cases", "");
     INJECT.store(arg(args, "--inject", "0").parse().unwrap_or(0), std::sync::atomic::Ordering::Relaxed);
     let mut n = 0u64;
-    let mut known: Option<(Init, Vec<Op>)> = None;
-    let mut n_known = 0u64;
     let mut seen = std::collections::HashSet::new();
-    let report = |init: &Init, ops: &[Op], kind: &str| {
-        let small = shrink(init, ops, kind);
-        let f = monitor_case(init, &small, None).unwrap();
-        println!("FAIL {}", case_line(init, &small));
-        println!("REASON {}: {}", f.kind, f.msg);
-    };
     for f in files.split(',').filter(|x| !x.is_empty()) {
         let text = std::fs::read_to_string(f).unwrap();
         for line in text.lines() {
             if let Some((init, ops)) = decode_case(line) {
                 n += 1;
                 if let Some(fl) = monitor_case(&init, &ops, Some(&mut seen)) {
-                    if fl.kind == KNOWN_EMPTY {
-                        n_known += 1;
-                        if known.is_none() { known = Some((init, ops)); }
-                    } else {
-                        println!("STATS cases={} known_empty_range_cases={}", n, n_known);
-                        report(&init, &ops, fl.kind);
-                        return;
-                    }
+                    let small = shrink(&init, &ops, fl.kind);
+                    let f = monitor_case(&init, &small, None).unwrap_or(fl);
+                    println!("FAIL {}", case_line(&init, &small));
+                    println!("REASON {}: {}", f.kind, f.msg);
+                    return;
                 }
             }
         }
     }
-    println!("STATS cases={} known_empty_range_cases={}", n, n_known);
-    match known {
-        // the only failures are the known empty-range finding
-        Some((init, ops)) => report(&init, &ops, KNOWN_EMPTY),
-        None => println!("MONITOR-OK cases={}", n),
-    }
+    println!("MONITOR-OK cases={}", n);
 }
 
 pub fn main(args: &[String]) {
@@ -1164,14 +1146,10 @@ pub fn main(args: &[String]) {
     } else {
         let count: usize = arg(args, "--count", "2000").parse().unwrap();
         let len: usize = arg(args, "--len", "60").parse().unwrap();
-        // util::Rng::new(s + 1) is the stream of Rng::new(s) shifted by one draw, so consecutive seeds
-        // would regenerate almost the same cases: give every case its own well-mixed state instead.
-        let mix = |x: u64| { let mut z = x.wrapping_add(0x9E3779B97F4A7C15);
-            z = (z ^ (z >> 30)).wrapping_mul(0xBF58476D1CE4E5B9); z = (z ^ (z >> 27)).wrapping_mul(0x94D049BB133111EB); z ^ (z >> 31) };
+        let mut rng = Rng::new(seed);
         let mut shards: Vec<Shard> = (0..nsh).map(|k| Shard::create(&dir, "memstorage-rnd", k)).collect();
         edge_cases(&mut shards[0]);
         for i in 0..count {
-            let mut rng = Rng(mix(mix(seed) ^ (i as u64).wrapping_mul(0xD6E8FEB86659FD93)));
             if let Err(m) = catch(|| random_case(&mut rng, len, &mut shards[i % nsh])) {
                 eprintln!("generator bug in random case {} (seed {}): {}", i, seed, m);
                 std::process::exit(3);
